@@ -811,6 +811,15 @@ pub fn c13_e1(tier: Tier) -> Vec<ExploreResult> {
                     scns.push(n);
                 }
             }
+            // a delivery failing its checksum / size test (EOF from a faulty sender): no effect at all
+            if file {
+                let mut b = s.clone();
+                b.name = format!("{} injected bad EOF", s.name);
+                b.inject = vec![InjectSpec::BadEof { checksum_xor: 1, size_delta: 0 }, InjectSpec::BadEof { checksum_xor: 0, size_delta: -1 }];
+                b.inject_budget = 1;
+                b.inject_before_success = true;
+                scns.push(b);
+            }
             // cancel: no effect at all
             let mut c = s.clone();
             c.name = format!("{} cancel@R", s.name);
